@@ -109,6 +109,9 @@ class FloatSpec (F : Type) extends FloatLike F where
     Fin (FloatLike.atan2 y x) ∧ |val (FloatLike.atan2 y x)| ≤ piV ∧
     (¬(val y = 0 ∧ val x < 0) →
       |val (FloatLike.atan2 y x) - Complex.arg ⟨val x, val y⟩| ≤ errTrig)
+  /-- on the negative real axis (`y = ±0`, `x < 0`) the result is `±π` up to the libm error: the sign of the zero decides the sign,
+      which is why `atan2_spec` gives no accuracy there -/
+  atan2_neg_axis : ∀ {y x : F}, Fin y → Fin x → val y = 0 → val x < 0 → piV - errTrig ≤ |val (FloatLike.atan2 y x)|
   acos_spec : ∀ {a : F}, Fin a → |val a| ≤ 1 →
     Fin (FloatLike.acos a) ∧ 0 ≤ val (FloatLike.acos a) ∧ val (FloatLike.acos a) ≤ piV
   asin_spec : ∀ {a : F}, Fin a → |val a| ≤ 1 →
